@@ -534,6 +534,35 @@ where
         }
     };
 
+    // Open the new file and put it at target_fd. If that fails, the saved copy
+    // is no longer needed and must not be left open.
+    match open_and_replace(env, redir, target_fd, xtrace).await {
+        Ok(exit_status) => {
+            let original = target_fd;
+            Ok((SavedFd { original, save }, exit_status))
+        }
+        Err(error) => {
+            if let Some(save) = save {
+                let _: Result<(), Errno> = env.system.close(save);
+            }
+            Err(error)
+        }
+    }
+}
+
+/// Opens the file for the redirection and makes `target_fd` refer to it.
+///
+/// This is the part of [`perform`] that comes after saving the original file
+/// descriptor.
+async fn open_and_replace<S>(
+    env: &mut Env<S>,
+    redir: &Redir,
+    target_fd: Fd,
+    xtrace: Option<&mut XTrace>,
+) -> Result<Option<ExitStatus>, Error>
+where
+    S: Runtime + 'static,
+{
     // Prepare an FD from the redirection body
     let (fd_spec, location, exit_status) = match &redir.body {
         RedirBody::Normal { operator, operand } => {
@@ -574,8 +603,7 @@ where
         let _: Result<(), Errno> = env.system.close(target_fd);
     }
 
-    let original = target_fd;
-    Ok((SavedFd { original, save }, exit_status))
+    Ok(exit_status)
 }
 
 /// `Env` wrapper for performing redirections.
